@@ -671,6 +671,9 @@ _EXC = {"KeyError": "KeyError", "ValueError": "ValueError", "ColangRuntimeError"
 
 def _cmp_record(rec, m):
     st, fu, au, fid, sc = _encode_state(rec["pre"])
+    if rec["op"] == "startflow" and late_starts({"records": [rec]}):
+        g = m.get("start")
+        return None if g is None or g.get("r") != "ignored" else f"startflow {rec['info']['fid']}: implementation started/re-activated a flow for an ended sender, model {g}"
     if rec["exc"]:
         if m.get("res") == "err" and m.get("kind") == _EXC.get(rec["exc"]):
             return None
@@ -730,8 +733,7 @@ def _cmp_record(rec, m):
         w = {"r": r["r"]}
         if r["r"] == "create":
             w["source"] = fu.get(r["source"])
-            if r.get("new_uid") in late_starts({"records": [rec]}):
-                return f"startflow {rec['info']['fid']}: implementation created an instance for an ended sender, model {g}"
+
         if r["r"] == "reused":
             w["inst"] = fu.get(r["inst"])
         if w != g:
@@ -877,11 +879,14 @@ def late_starts(obs):
     (and that is not the restart of an activated flow): region of the open finding `start-after-parent-ended`"""
     late = set()
     for r in obs.get("records", []):
-        if r["op"] == "startflow" and r.get("res") and r["res"]["r"] == "create":
+        if r["op"] == "startflow" and r.get("res") and r["res"]["r"] in ("create", "reused"):
             i = r["info"]
             src = [f for f in r["pre"]["flows"] if f["uid"] == i["source"]]
-            if src and src[0]["status"] in _DONE and src[0]["fid"] != i["fid"]:
-                late.add(r["res"].get("new_uid"))
+            if not src:
+                continue
+            restart = src[0]["fid"] == i["fid"] and i["act"]
+            if (src[0]["status"] in _DONE and not restart) or (restart and src[0]["activated"] == 0):
+                late.add(r["res"].get("new_uid") if r["res"]["r"] == "create" else r["res"].get("inst"))
     return late
 
 
